@@ -35,7 +35,7 @@ fn op(g: &J) -> &str {
 pub fn can_empty(g: &J) -> bool {
     match op(g) {
         "just" => g[1].as_array().map_or(true, |a| a.is_empty()),
-        "any" | "oneof" | "noneof" | "sel" | "tree" => false,
+        "any" | "oneof" | "noneof" | "sel" | "tree" | "anyr" | "selr" => false,
         "end" | "empty" | "probe" | "cfgjust" | "cfgjustr" => true,
         "cust" => g[1].as_u64() == Some(0) && g[2].as_bool() == Some(true),
         "then" | "ithen" | "theni" | "thenctx" | "ignctx" => can_empty(&g[1]) && can_empty(&g[2]),
@@ -69,7 +69,7 @@ fn wf_iter(it: &J) -> bool {
 /// Ast.tla WF
 pub fn wf(g: &J) -> bool {
     match op(g) {
-        "just" | "any" | "oneof" | "noneof" | "sel" | "end" | "empty" | "cust" | "probe" | "cfgjust" | "cfgjustr" | "ref" | "var" | "tree" => true,
+        "just" | "any" | "oneof" | "noneof" | "sel" | "end" | "empty" | "cust" | "probe" | "cfgjust" | "cfgjustr" | "ref" | "var" | "tree" | "anyr" | "selr" => true,
         "then" | "ithen" | "theni" | "or" | "andis" | "thenctx" | "ignctx" | "nested" | "padded" | "let" => wf(&g[1]) && wf(&g[2]),
         "delim" => wf(&g[1]) && wf(&g[2]) && wf(&g[3]),
         "group" | "grouparr" | "choice" | "choicev" => g[1].as_array().unwrap().iter().all(wf),
@@ -132,6 +132,12 @@ pub fn family(name: &str) -> Family {
             unary: if name == "spn" { vec!["tospan", "toslice", "mw", "ornot", "rewind", "rep0", "validateF", "trymapF"] } else { vec!["tospan", "mw", "ornot", "rewind", "rep0", "validateF", "trymapF"] },
             binary: vec!["then", "or", "foldlw", "foldrw", "then"],
             alphabet: if name == "spn" { vec!["a", "b", "E"] } else { vec!["a", "b"] },
+        },
+        "spnr" => Family {
+            leaves: vec![j("a"), json!(["anyr"]), json!(["selr", ["a"]]), json!(["any"]), json!(["empty"]), j("b"), json!(["selr", ["a", "b"]])],
+            unary: vec!["tospan", "mw", "ornot", "rewind", "rep0", "validateF", "trymapF"],
+            binary: vec!["then", "or", "foldlw", "foldrw", "then"],
+            alphabet: vec!["a", "b"],
         },
         "rcv" => Family {
             leaves: vec![j("a"), j("b"), jj("a", "b"), json!(["any"])],
